@@ -1,5 +1,4 @@
-\* quick: every (old, new) pair of iauth_xquery sections over {a.svc, b.svc} x {login, login-ipr, dronecheck, combined,
-\* bogus, absent} (36 sections, 1 296 pairs), earlier client on, one reload at any point of its activity, scripted probe
+\* model mutant: config_service() returns after filling a freed slot (code before f88f720); TLC must report a violation
 \* (checks/c17.py writes the same text with its own EmitMod / KeepOld)
 CONSTANTS
   Services <- NoServices
@@ -9,8 +8,8 @@ CONSTANTS
   MaxPw = 1
   EmitMod = 0
   NameOrder <- Names2
-  RBug <- RB_none
-  TypeWords <- Words5
+  RBug <- RB_D11
+  TypeWords <- Words3
   MaxRl = 1
   PreOn = TRUE
   Free = FALSE
